@@ -47,8 +47,9 @@ VARIANTS = {
     ("vec", "opassign"): ["{v} append= 7", "{v} ++= V(7)"],
     ("bytes", "set"): ["{v}[1] = 7", "{v}[1] += 1", "{v}[-1] = 7"],
     ("bytes", "opassign"): ["{v} append= 7", "{v} ++= B[7]"],
-    ("*", "set2"): ["{v}[{r}][2] = 7", "{v}[{r}][2] += 1", "{v}[{r}][-1] = 7", "remove {v}[{r}][-1]", "pop {v}[{r}]"],
-    ("*", "opassign2"): ["{v}[{r}] append= 7", "{v}[{r}] ++= [7]", "{v}[{r}] +.= 7"],
+    # {R}: the row designator - [i] for a row / dict entry, [fa] or ::fa for a struct field
+    ("*", "set2"): ["{v}{R}[2] = 7", "{v}{R}[2] += 1", "{v}{R}[-1] = 7", "remove {v}{R}[-1]", "pop {v}{R}"],
+    ("*", "opassign2"): ["{v}{R} append= 7", "{v}{R} ++= [7]", "{v}{R} +.= 7"],
 }
 
 
@@ -100,8 +101,12 @@ def render0(stmt, kind, n, rows=3):
             # the elements are rows: a swap would move a shared row to another slot, which the model's
             # `set` step (it only makes the outer payload unique) does not follow
             forms = [f for f in forms if not f.startswith("swap")]
-        row = "fa" if stmt.get("field") else str(stmt.get("i", 1) - 1)
-        return forms[stmt.get("var", 0) % len(forms)].format(v=v, r=row)
+        var = stmt.get("var", 0)
+        if stmt.get("field"):
+            R = "::fa" if (var // len(forms)) % 2 else "[fa]"       # both ways of addressing a field
+        else:
+            R = "[%d]" % (stmt.get("i", 1) - 1)
+        return forms[var % len(forms)].format(v=v, R=R)
     raise ValueError(op)
 
 
@@ -234,7 +239,7 @@ def drive(rep, tier, seed):
             if f in ("set2", "opassign2"):
                 s["i"] = 1 if kind == "field" else rng.randint(1, 3)
                 s["field"] = kind == "field"
-            s["var"] = rng.randrange(nvariants(base, f))
+            s["var"] = rng.randrange(2 * nvariants(base, f))      # (the upper half selects ::field addressing)
             s["nested"] = kind in ("nested", "rows")
             stmts.append(s)
         srcs = redeclare_safe([render(s, base, n) for s in stmts])
